@@ -121,7 +121,7 @@ Example C02_example_error_at_call_index_2 :
 Proof. exact witness_error_at_index_2. Qed.
 
 Example C02_example_deferred_callback_returns_ErrSkip :
-  let '(s', tr, out) := wf_run (mk_step (bs "var A2 = 1") RNil false false [([], RSkip)]) (ok_step "var B0 = 1") in
+  let '(s', tr, out) := wf_run (mk_step (bs "var A2 = 1") RNil false false [SD [] RSkip []]) (ok_step "var B0 = 1") in
   out = Failed (EDefer (bs "g1") (bs "m/a")) /\ unchanged s' [a_g1; a_g2; b_g1; the_sum] = true.
 Proof. exact witness_deferred_error. Qed.
 
@@ -142,3 +142,50 @@ Example C02_example_skip_and_ignore_are_swallowed :
   existsb (fun e => match e with EvCall _ _ _ _ RSkip => true | _ => false end) tr = true /\
   existsb ev_is_ignore tr = true.
 Proof. exact witness_swallowed. Qed.
+
+(* ---- the composed system (Model/Whole.v, Props/Whole.v): the crash theorems with the REAL gengo.sum parser ----
+   [crash_state E a w gens s s']: the run is killed after any number k of its effects (s' = the first k applied), or
+   inside the write of gengo.sum, which then holds any prefix of its bytes.  E is any environment whose sum
+   parser / printer are the byte-level ones of C08 (bytes.Lines, bytes.Fields; sorted keys) — e.g. Whole.whole_env. *)
+Require Gengo.Model.SumFile Gengo.Proofs.SumFile Gengo.Model.Whole Gengo.Proofs.WholeCrash Gengo.Props.Whole.
+
+Theorem C02_whole_crash_sum_content :
+  forall (E : env), e_sum_bytes E = SumFile.sumfile_bytes ->
+  forall a w gens s s',
+    files_ok w -> WholeCrash.crash_state E a w gens s s' ->
+    fs_lookup (sum_path w) s' = fs_lookup (sum_path w) s
+    \/ exists n, fs_lookup (sum_path w) s' = Some (firstn n (SumFile.sumfile_bytes (current_sum w))).
+Proof. exact Gengo.Props.Whole.Whole_crash_sum_content. Qed.
+Print Assumptions C02_whole_crash_sum_content.
+
+(* "... or marks work as done": whatever the crash point, the NEXT run (any arguments, any loaded world w2 of the
+   module) treats p as done only if the hash it computed for p is recorded by the gengo.sum the killed run had found
+   and not yet touched, or is the one the killed run was recording.  Side conditions: recorded paths / hashes are
+   tokens (kv_ok); a recorded hash is as long as the one computed now, or empty (dirhash.Hash1 has one length). *)
+Theorem C02_whole_crash_then_skip_justified :
+  forall (E : env), e_sum_load E = SumFile.sumfile_load -> e_sum_bytes E = SumFile.sumfile_bytes ->
+  forall a w gens s s' a2 w2 p,
+    files_ok w -> WholeCrash.crash_state E a w gens s s' ->
+    Gengo.Proofs.SumFile.kv_ok (current_sum w) ->
+    sum_path w2 = sum_path w ->
+    (sum_get (current_sum w) (pk_path p) = []
+     \/ List.length (sum_get (current_sum w) (pk_path p)) = List.length (sum_get (current_sum w2) (pk_path p))) ->
+    pkg_changed a2 w2 (load_prev E a2 w2 s') p = false ->
+    sum_get (current_sum w2) (pk_path p) <> []
+    /\ ((exists b, fs_lookup (sum_path w) s = Some b
+                   /\ SumFile.sum_sum (SumFile.sumfile_load b) (pk_path p) = sum_get (current_sum w2) (pk_path p))
+        \/ sum_get (current_sum w) (pk_path p) = sum_get (current_sum w2) (pk_path p)).
+Proof. exact Gengo.Props.Whole.Whole_crash_then_skip_justified. Qed.
+Print Assumptions C02_whole_crash_then_skip_justified.
+
+(* after the repair of pkgChanged (an empty current hash is never cached) the hypothesis "has a directory hash" of
+   C02_empty_sum_regenerates is not needed any more *)
+Theorem C02_empty_sum_regenerates_everything :
+  forall (E : env) a w s p,
+    e_sum_load E [] = [] -> fs_lookup (sum_path w) s = Some [] ->
+    pkg_changed a w (load_prev E a w s) p = true.
+Proof. exact empty_sum_regenerates_all. Qed.
+Print Assumptions C02_empty_sum_regenerates_everything.
+
+Example C02_example_real_parser_load_of_nothing : SumFile.sumfile_load [] = [].
+Proof. vm_compute. reflexivity. Qed.
